@@ -58,7 +58,7 @@ Definition reachable_serial (s : st) : Prop :=
 
 (* requests, as opposed to the death of a task (an event of the outside world) *)
 Definition is_request (o : op) : bool :=
-  match o with ODies _ => false | _ => true end.
+  match o with ODies _ | OFail _ => false | _ => true end.
 
 Definition env_listed (e : N) (s : st) : bool :=
   match find_env e (s_envs s) with Some _ => true | None => false end.
@@ -69,35 +69,22 @@ Definition owns_some (e : N) (r : roster) : bool := existsb (owner_is e) r.
 (* the DESTROY / after_DESTROY hook tasks of an environment, as TeardownEnvironment sees them *)
 Definition destroy_hook_tids (x : env) : list tid := flat_map (group_tasks (e_id x)) (merged x).
 
-(* hypothesis of the partial theorem of C06: DESTROY hook tasks exist at the LAST weight only and
-   their roles are still ACTIVE — exactly the tasks the single surviving release message names *)
-Definition hooks_releasable (x : env) (r : roster) : Prop :=
-  forall pre g, merged x = pre ++ [g] ->
-    (forall g', In g' pre -> group_tasks (e_id x) g' = []) /\
-    (forall id, In id (group_tasks (e_id x) g) -> active_in r id = true).
-
-(* hypotheses on a workflow whose creation fails: no DESTROY hook task roles, and no task that is
-   still staging when the failed creation is cleaned up *)
-Definition no_hook_tasks (c : cspec) : bool := forallb (fun r => negb (is_hook_task r)) (c_roles c).
-Definition none_staging (c : cspec) : bool := forallb (fun r => N.leb (r_launch r) 1) (c_roles c).
-
 (* "the environment left nothing behind" *)
 Definition nothing_left (e : N) (s' : st) : Prop :=
   find_env e (s_envs s') = None /\
   (forall t, In t (s_roster s') -> owner_is e t = false) /\
   (forall x, In x (s_envs s') -> e_id x <> e).
 
-(* ---------------- the full statements of C06 (refuted by the unchanged code, see props/C06.v) *)
+(* ---------------- the full statements of C06 *)
 Definition destroy_leaves_nothing : Prop :=
   forall s e force allow keep tfail s' u,
     reachable s -> env_listed e s = true ->
     step s (ODestroy e force allow keep tfail) = (s', u) -> o_rc u = 0 ->
     nothing_left e s'.
 
-(* every task launched for a creation that failed, unless it had already terminated, got its KILL *)
+(* every task launched for a creation that failed got its KILL (running, still staging or dead) *)
 Definition launched_killed (e : N) (c : cspec) (u : out) : Prop :=
-  forall ir, In ir (iroles (c_roles c)) -> In (tid_of e (fst ir)) (o_launch u) ->
-             r_launch (snd ir) <> 1 -> In (tid_of e (fst ir)) (o_kills u).
+  forall id, In id (o_launch u) -> In id (o_kills u).
 
 Definition failed_creation_leaves_nothing : Prop :=
   forall s e c s' u,
